@@ -59,12 +59,22 @@ func Minimize(tree *Node, fails func(*Node) bool) *Node {
 }
 
 // MinimizeToks greedily deletes tokens while fails keeps returning true.
+// The number of trials is bounded (more trials for short sequences, at least 200): a
+// violation that needs one exact large size cannot be shrunk, and trying to would cost
+// a quadratic number of expensive evaluations.
 func MinimizeToks(toks []Tok, fails func([]Tok) bool) []Tok {
 	cur := append([]Tok(nil), toks...)
+	budget := 200
+	if len(toks) > 0 && 400000/len(toks) > budget {
+		budget = 400000 / len(toks)
+	}
 	for changed := true; changed; {
 		changed = false
 		for width := 2; width >= 1 && !changed; width-- {
 			for i := 0; i+width <= len(cur); i++ {
+				if budget--; budget < 0 {
+					return cur
+				}
 				cand := append(append([]Tok(nil), cur[:i]...), cur[i+width:]...)
 				if len(cand) > 0 && fails(cand) {
 					cur = cand
